@@ -3,11 +3,11 @@ from checklib import cbytes, clist, cpair, cN
 
 ID = "C15"
 HARNESS = "c15"
-N_CASES = {"quick": 120, "thorough": 4000}
+N_CASES = {"quick": 120, "thorough": 1000}
 N_SEARCH = {"quick": 1, "thorough": 2}
 SHARD = 15
 HAS_MODEL_OUT = True
-RULE = ("seeded histories (2-16 steps) of Add / Del / ExecuteBatch / Backup+Restore / reopen (Close, open the same directory again) on a real RocksDB directory: "
+RULE = ("seeded histories (2-16 steps) of Add / Del / ExecuteBatch / Backup+Restore / reopen (Close, open the same directory again) / snap (one more backup into the case's one backup directory) / restore (latest backup into a fresh directory, read completely, history goes on with the copy or the original) on a real RocksDB directory: "
         "small key and value alphabets (empty value, values that are prefixes of each other, values that look like the "
         "length framing, the empty key), batches with duplicate keys, deletions of what the same batch adds and of absent "
         "values (failing batches), batches of 13-40 pairs (sort.Slice beyond insertion sort), random long keys/values, multi-session histories (a key written, the store closed, the key changed and emptied value by value, the store closed or backed up, the key read, deleted from and written again); "
@@ -16,7 +16,7 @@ RULE = ("seeded histories (2-16 steps) of Add / Del / ExecuteBatch / Backup+Rest
 TRUSTED_BASE = [
     "RocksDB and cgo-rocksdb below Get/GetMulti/Put/Delete/WriteBatch (Get gives nil exactly for an absent key, a WriteBatch is atomic) are not modelled; the store is an abstract function key -> option bytes",
     "sort.Slice enters the proofs as a parameter that returns a permutation sorted by bytes.Compare (not stable); the model is evaluated with a stable sort and compared up to the order of one batch's additions to one key",
-    "Backup + Restore (RocksDB BackupEngine, C++) is the identity on the abstract map by definition; that clause is correspondence only",
+    "Backup / Restore (RocksDB BackupEngine, C++): in the model a backup is a snapshot of the store and a restore yields the latest snapshot, by definition; that the engine restores the LATEST of several backups in one directory, unchanged, is correspondence only (every restored copy is read completely)",
     "the Go layer (appendValues, delValue, ReadNextChunk, getAffectedKeys, integrate, Add, Del, ExecuteBatch, Find, ForEach) is modelled by hand (Model/MultiValue.v, Model/Batch.v) and exercised by the correspondence run, not verified; slice aliasing in delValue is not modelled",
     "Find/ForEach are called with a fresh Context (a reused Context caches raw values across writes)",
 ]
@@ -59,6 +59,10 @@ def _op(d, s):
         return "(OBatch %s %s)" % (_pairs(d, s.get("adds")), _pairs(d, s.get("dels")))
     if op == "reopen":
         return "OReopen"
+    if op == "snap":
+        return "OBackup"
+    if op == "restore":
+        return "(ORestore %s)" % ("true" if s.get("cont") else "false")
     return "OBackupRestore"
 
 
@@ -95,7 +99,7 @@ def nontrivial(c):
 def case_class(c):
     kinds = set(s["op"] for s in c["steps"])
     failed = any(s["op"] == "batch" and s["err"] != 0 for s in c["steps"])
-    return c.get("class", "?") + (":backup" if "backup" in kinds else "") + (":reopen" if "reopen" in kinds else "") + (":failedbatch" if failed else "")
+    return c.get("class", "?") + (":backup" if "backup" in kinds else "") + (":snaps" if sum(1 for s in c["steps"] if s["op"] == "snap") >= 2 else "") + (":restore" if "restore" in kinds else "") + (":reopen" if "reopen" in kinds else "") + (":failedbatch" if failed else "")
 
 
 def shrink_candidates(c):
